@@ -1,4 +1,5 @@
 mod f_astro;
+mod f_block;
 mod f_goodday;
 mod f_hijri;
 mod f_params;
